@@ -64,9 +64,18 @@ def random_scenario(rng):
             ops.append("O%d" % rng.randint(1, 2))        # several threads meet at the same once-flag
         if rng.random() < 0.2:
             ops.append("V")
+        if kinds[i] == "J" and rng.random() < 0.4:
+            ops.append("S")
+        counted = kinds[i] == "J" and rng.random() < 0.35     # counts itself in for join-all for a while          # a refused join (the thread on its own handle) before the launcher's real one
         if bounded and kinds[i] == "M" and rng.random() < 0.6:
             ops.append("Z%d" % rng.choice([1, 5, 10, 20, 50, 200, 3000, 5000]))
         rng.shuffle(ops)
+        if counted:
+            a = rng.randrange(len(ops) + 1)
+            ops.insert(a, "C+")
+            ops.insert(rng.randint(a + 1, len(ops)), "C-")
+            if rng.random() < 0.5:
+                ops.insert(ops.index("C-"), "Z%d" % rng.choice([1, 5, 50]))
         # thread options: pinned to a cpu that exists / that does not exist (the library then retries unpinned), named
         opt = rng.choice(["", "", "", "", "0", "1000", "1000", "n", "1000n"])
         lines.append(("THREAD %d %s%s %s" % (i, kinds[i], opt, " ".join(ops))).rstrip())
